@@ -272,6 +272,11 @@ def step (st : State) (w : List String) : State × String :=
       (st, s!"n=1 id={w.id} rcode={w.rcode} a={w.mark}")
     | _, _, _ => (st, "bad-op")
   | ["pool", "escape", _seed, _rounds] => (st, "unmodelled")
+  | ["retain", "seq", _seed, kinds] =>
+    -- every served request allocates its own reply; nothing served later touches it
+    let kl := kinds.splitOn ","
+    let h := retainMany [] ((kl.zipIdx).map fun (k, i) => (((i + 1) % 3) * 1024 + (i + 1), k != "nr"))
+    (st, ",".intercalate (h.map fun o => match o with | some m => toString m.id | none => "none"))
   | ["doq", "conn", order, behs] =>
     -- goroutine i serves stream i; handlers complete in the scripted order
     let bl := behs.splitOn ","
